@@ -139,6 +139,9 @@ class ExprMixin:
             return ops.const(self.reg.consts[n])
         if n in self.local_funcs:
             return V(FN, FuncRef("local", node=self.local_funcs[n]))
+        ck = self.reg.class_for(self.file, n)
+        if ck is not None:
+            return V(FN, FuncRef("class", cls=ck))
         if n in self.reg.classes:
             return V(FN, FuncRef("class", cls=n))
         if n in self.reg.contracts:
@@ -310,6 +313,7 @@ class ExprMixin:
             return V(a.kind if a.kind == REAL else INT, t)
         if a.kind in (INT, BOOL) and b.kind in (INT, BOOL):
             f = z3.Function("ipow", I, I, I)
+            self.recdefs[f] = lambda aa, bb, f=f: z3.If(bb <= 0, z3.IntVal(1), aa * f(aa, bb - 1))
             ta, tb = ops.to_int_term(a), ops.to_int_term(b)
             r = f(ta, tb)
             # assumed axioms of integer power for non-negative base and exponent (listed in evidence)
